@@ -98,6 +98,8 @@ pub struct SimNode {
     pub config: Arc<RaftNodeConfig>,
     /// set when the Raft loop returned a fatal error
     pub fatal: bool,
+    /// timed mode (views report timer/lease distances)
+    pub timed: bool,
 }
 
 pub async fn assemble(
@@ -263,6 +265,7 @@ pub async fn assemble(
         tasks,
         config: node_config_arc,
         fatal: false,
+        timed: false,
     }
 }
 
